@@ -18,6 +18,8 @@ PROGRAMS = {
             # the define is used while the source is EXPANDED (.if condition, .for bound, := right-hand side), and a string holds a TAB
             "*=0x008000\n.if K {\nlda #0x12\n} else {\nlda #0x34\n}\n.for i := 0, K - K + 2 {\n.db i + K\n}\ncopy := K + 1\n.db copy\n.ascii 'COL1\tCOL2'\n",
             "*=0x00FFFC\n.dl 0x123456\n.dl 0x654321\nafter:\n.dw after\n",
+            # blocks made of zero bytes only: one overwriting earlier bytes, one being the highest block of the image (a cleared vector)
+            "*=0x008000\n.db 0x11, 0x22, 0x33, K\n*=0x008001\n.db 0, 0\n*=0x00ffe4\n.dw 0x0000\n",
             # blocks written in DESCENDING address order, the later one overlapping the earlier one's start: the image keeps the highest byte, the later write wins
             "*=0x018000\n.db 0x11, 0x12, 0x13, K\n*=0x008000\nlda #K\nrts\n*=0x017FFE\n.db 0x21, 0x22, 0x23\n"],
     "low2": ["*=0x808000\nstart:\nlda #K\n.dl start\n*=0x818100\n.db 9\n", "*=0x818000\n.db 1, 2, K\n*=0x808000\nlda #K\n"],
